@@ -441,7 +441,33 @@ def strip_header(text):
 # sweep: LIKE deck against its explicit expansion
 # ---------------------------------------------------------------------------
 
+def try_case(res, obs):
+    '''coq_case, or None when the observed objects no longer have the shape
+    the encoder reads (an internal representation was changed): the deck is
+    then left out of tie:deck and counted; the sweeps through the written
+    files still run.'''
+    try:
+        return coq_case(obs)
+    except Exception as exc:                   # pylint: disable=broad-except
+        res.count('tie-skipped:encoding ' + type(exc).__name__)
+        return None
+
+
 def diff_cells(obs_a, obs_b, ignore_importance=(), ignore_density=()):
+    '''Field-by-field comparison of the parsed cells; no verdict (and a note in
+    the evidence) when the parsed objects no longer have the attributes read
+    here — the file-level oracle still decides.'''
+    try:
+        return _diff_cells(obs_a, obs_b, ignore_importance, ignore_density)
+    except AttributeError as exc:
+        SHAPE_ERRORS.add(str(exc)[:120])
+        return []
+
+
+SHAPE_ERRORS = set()
+
+
+def _diff_cells(obs_a, obs_b, ignore_importance=(), ignore_density=()):
     '''Cells of two parsed decks that differ, with the differing fields.'''
     diffs = []
     if obs_a.result[0] != 'ok' or obs_b.result[0] != 'ok':
@@ -521,10 +547,12 @@ def sweep_deck(res, deck, text, rng, do_points, do_files=True):
                     failures.append(('split', f'get_cells gives {got} for '
                                      f'card {cell["text"]!r}, expected '
                                      f'{want}', None))
-            if obs_like.result[0] == 'ok':
+            if obs_like.result[0] == 'ok' and hasattr(
+                    obs_like.result[1].get(cell['id']), 'geometry'):
                 root = gen.resolve(by_id, cell['id'])
-                want_ast = gen.expected_ast_repr(root['expr'])
-                got_ast = repr(obs_like.result[1][cell['id']].geometry)
+                want_ast = gen.expected_ast(root['expr'])
+                got_ast = gen.ast_canon(
+                    obs_like.result[1][cell['id']].geometry)
                 if want_ast != got_ast:
                     failures.append(('geometry', f'cell {cell["id"]}: '
                                      f'geometry {got_ast}, expected '
@@ -942,16 +970,21 @@ def _run(res, tier, seed, proofs_ok):
             res.count('tie-skipped:helper ' + ','.join(obs.tie_skip)
                       + ' not present')
         elif obs.setup_error is None:
-            cases.append(coq_case(obs))
-            meta.append((text, obs))
+            case = try_case(res, obs)
+            if case is not None:
+                cases.append(case)
+                meta.append((text, obs))
             for content, parts in obs.cards:
                 if re.match(r'\s*\d+\s+like\b', content, flags=re.I):
                     split_cases.append((content, parts))
         if i < 3:
-            res.sample({'deck': text,
-                        'parsed': {k: cell_fields(c) for k, c in
-                                   obs.result[1].items()}
-                        if obs.result[0] == 'ok' else obs.result})
+            try:
+                res.sample({'deck': text,
+                            'parsed': {k: cell_fields(c) for k, c in
+                                       obs.result[1].items()}
+                            if obs.result[0] == 'ok' else obs.result})
+            except AttributeError:
+                res.sample({'deck': text})
     for i in range(n_edge):
         base = gen.gen_deck(rng, n_like=rng.choice([0, 1, 2]))
         gen.render(base, rng)
@@ -970,7 +1003,10 @@ def _run(res, tier, seed, proofs_ok):
             res.count('tie-skipped:helper ' + ','.join(obs.tie_skip)
                       + ' not present')
             continue
-        cases.append(coq_case(obs))
+        case = try_case(res, obs)
+        if case is None:
+            continue
+        cases.append(case)
         meta.append((text, obs))
         for content, parts in obs.cards:
             if re.match(r'\s*\d+\s+like\b', content, flags=re.I):
@@ -1108,6 +1144,8 @@ def _run(res, tier, seed, proofs_ok):
                                   {'input': {'deck': text, 'expanded': ctext},
                                    'oracle': 'canon-impl-file'},
                                   found_input=True)
+    if SHAPE_ERRORS:
+        res.extra['parsed_cell_shape_changed'] = sorted(SHAPE_ERRORS)
     res.count('canon-impl:decks', n_checked)
     res.obligation(f'sweep:canon-impl ({n_checked} decks: the implementation '
                    'parses the deck of model-constructed explicit cards to the '
